@@ -259,6 +259,9 @@ std::vector<Value> FilterUtility::GetFilterTargets(const QueryDescription& qd, c
 	}
 
 	if ((query && query->Contains("filter")) || result.empty()) {
+		/* The targets of the filter phase may be of another type than the last one addressed by name above. */
+		permissionFrame.Self = new Namespace();
+
 		if (!query->Contains("type"))
 			BOOST_THROW_EXCEPTION(std::invalid_argument("Type must be specified when using a filter."));
 
